@@ -736,20 +736,16 @@ where
     }
 
     fn resolve_indexed_access(&self, obj: &TsType, index: &TsType) -> Option<TsType> {
+        // parentheses mean nothing: `(string[])[number]`, `T[("a")]`; they are removed before the
+        // circular-reference guard looks at the object type (`type Loop = (Loop)`)
+        let obj = strip_type_parens(obj);
+        let index = strip_type_parens(index);
         self.guard_circular(obj, || self.resolve_indexed_access_unguarded(obj, index))
             .flatten()
     }
 
     fn resolve_indexed_access_unguarded(&self, obj: &TsType, index: &TsType) -> Option<TsType> {
-        // parentheses mean nothing: `(string[])[number]`, `T[("a")]`
-        // (through the guarded entry: `type Loop = (Loop)` must not recurse for ever)
-        if let TsType::TsParenthesizedType(TsParenthesizedType { type_ann, .. }) = index {
-            return self.resolve_indexed_access(obj, type_ann);
-        }
         match obj {
-            TsType::TsParenthesizedType(TsParenthesizedType { type_ann, .. }) => {
-                self.resolve_indexed_access(type_ann, index)
-            }
             // `T["a"]["b"]`
             TsType::TsIndexedAccessType(TsIndexedAccessType {
                 obj_type,
@@ -1423,4 +1419,11 @@ fn contains_jsx(expr: &Expr) -> bool {
     let mut finder = Finder(false);
     expr.visit_with(&mut finder);
     finder.0
+}
+
+fn strip_type_parens(mut ty: &TsType) -> &TsType {
+    while let TsType::TsParenthesizedType(TsParenthesizedType { type_ann, .. }) = ty {
+        ty = type_ann;
+    }
+    ty
 }
